@@ -19,10 +19,13 @@ MANIFEST = dict(
          "search_preprocessor/search_decompress over an abstract child {spawn_ok, stdout, stderr, success when fully read, "
          "success when cut short} and ANY consumer that may stop early: preprocessor_outcome_table, "
          "searched_bytes_are_child_stdout, early_stop_not_error, preprocessor_failure_iff, start_failure, "
-         "failure_sets_status_2 (with C15). Tie: the real grep_cli::CommandReader driven like search_preprocessor on "
+         "failure_sets_status_2 (with C15); flag_override_law(_generated): the update rules of --pre/--no-pre/-z/"
+         "--no-search-zip REGENERATED from defs.rs, applied to any flag list, equal the documented 'last flag that speaks "
+         "about a setting decides it'. Tie: the real grep_cli::CommandReader driven like search_preprocessor on "
          "generated shell children (library level, exact for 1-byte reads), and rg --pre / -z runs with generated scripts "
          "(echo, transform, noisy, exit 0..255 before/during/after output, missing, not executable), early stops via "
-         "-m/-q/-l and binary detection, valid and truncated gzip/bzip2/xz: (stdout, stderr kind, status) vs the model and "
+         "-m/-q/-l and binary detection, a failing child (--pre and -z) x every early-stopping mode x -j, all orders/"
+         "spellings/empty values of --pre/--no-pre/-z/--no-search-zip, valid and truncated gzip/bzip2/xz: (stdout, stderr kind, status) vs the model and "
          "vs rg run directly on the command's output. PARTIAL: 'large stderr never blocks' is liveness of the helper "
          "thread and OS pipes — exercised with up to 4 MiB on stderr under a timeout, not proved.",
     note="known findings: EarlyStopWithStderrOutput (close()'s documented heuristic), DecompressorMissingSearchesRaw "
